@@ -123,7 +123,7 @@ def body():
                 gcoef = g.vertices[:, vert].T.dot(a) + b0
                 psi = g.normals.dot(a)
                 umax = np.abs(g.vertices.T.dot(a) + b0).max()
-                for order in (8, 12):
+                for order in (8, 10, 12) if quick else (8, 9, 10, 11, 12):
                     par.quadrature.regular = order
                     val = (pot.single_layer(D0, X).evaluate(api.GridFunction(D0, coefficients=psi)) - pot.double_layer(P1, X).evaluate(api.GridFunction(P1, coefficients=gcoef))).ravel()
                     want = np.where(inside, X.T.dot(a) + b0, 0.0)
@@ -148,6 +148,26 @@ def body():
                     acc += pot.double_layer(ps, X).evaluate(api.GridFunction(ps, coefficients=g.vertices[:, vs].T.dot(a) + b0)).ravel()
                 if np.abs(acc - whole).max() > 1e-10 * max(1e-9, np.abs(whole).max()):
                     fail("segments:p1", "double-layer potential of u assembled from truncated segment-wise P1 pieces differs from the whole-grid one by %.3g" % (np.abs(acc - whole).max() / np.abs(whole).max()))
+            # ---- the same surface stretched by (1,2,3): elements of different sizes; potentials of segment-wise pieces (segments that do not
+            # start at element 0) must add up to the whole-grid potential, for the real kernels (exact relation, no premise on the points)
+            S3 = np.array([1.0, 2.0, 3.0])
+            gS = api.Grid((xyz * S3).T.copy(), el.T.astype("uint32"), dom)
+            XS = X * S3[:, None]
+            par.quadrature.regular = 4
+            D0s, D1s = api.function_space(gS, "DP", 0), api.function_space(gS, "DP", 1)
+            for kind, sp_, nloc in (("DP0", D0s, 1), ("DP1", D1s, 3)):
+                c = rng.randint(-3, 4, sp_.global_dof_count).astype(float)
+                for name, fac in (("single_layer", pot.single_layer), ("double_layer", pot.double_layer)):
+                    whole = np.asarray(fac(sp_, XS).evaluate(api.GridFunction(sp_, coefficients=c))).ravel()
+                    acc = np.zeros_like(whole)
+                    for s_ in sorted(set(dom.tolist())):
+                        ps = api.function_space(gS, "DP", 0 if kind == "DP0" else 1, segments=[s_])
+                        cs = c.reshape(ne, nloc)[ps.support].ravel()
+                        acc += np.asarray(fac(ps, XS).evaluate(api.GridFunction(ps, coefficients=cs))).ravel()
+                    chk.count((key, "stretched_segments", kind, name), True)
+                    if np.abs(acc - whole).max() > 1e-10 * max(1e-9, np.abs(whole).max()):
+                        fail("segments:stretched:%s" % name, "%s potential of a %s density on the surface stretched by (1,2,3): segment-wise pieces add up to something that differs from the whole-grid potential by %.3g" % (
+                            name, kind, np.abs(acc - whole).max() / np.abs(whole).max()))
             chk.sample({"solid": obs[0]["cells"][:4], "points": len(obs), "inside_points": int(inside.sum()), "first_point": obs[0]["x2"]})
         except Exception as exc:
             import traceback
